@@ -65,3 +65,17 @@ PROPS["C07"] = {
         "an interval with min > max is empty (never returned)",
     ],
 }
+
+PROPS["C08"] = {
+    "level": "proof",
+    "technique": "Verus contracts on the extracted lease operations (acquire / renew / complete / fail / scavenge, in-memory backend; acquire with its CAS retry loop, object-store backend): inductive invariant 'Active leases have pairwise disjoint chunk lists', closures handed to retain/filter lifted and verified, rely on the conditional-PUT contract of the lease file",
+    "verus": ["c08_leases.rs.in"],
+    "explanation": "",
+    "assumptions": [
+        "HashMap::retain / values().filter().flat_map().collect() / iter().filter().cloned().collect() have their std meaning, stated over the lifted closure predicates",
+        "chrono::DateTime<Utc> is a totally ordered instant; Utc::now() is the shared monotone clock, far from i64 overflow; + Duration::seconds(300) is exact",
+        "uuid::Uuid::new_v4() is fresh with respect to ids already in the lease file",
+        "object-store backend: other nodes follow the same protocol (every version of the lease file they write satisfies the invariant); conditional PUT succeeds only if the ETag is the one returned by the load of the same attempt, atomically",
+        "object-store complete / fail / renew / scavenge bodies are not under contract yet (same logic as the in-memory ones, which are)",
+    ],
+}
